@@ -17,3 +17,12 @@ Definition image_check cases := bad_indices image_ok cases.
 
 Definition i2b_ok (c : Z * option bool) : bool := opt_eqb Bool.eqb (i2b (fst c)) (snd c).
 Definition i2b_check cases := bad_indices i2b_ok cases.
+
+(* the liftings over Float -> Integer on the values the implementation converted: Base<List,List> converts every
+   element or refuses the list, Base<Optional,Optional> converts the wrapped value or refuses *)
+Definition list_lift_ok (c : list Z * option (list Z)) : bool :=
+  opt_eqb (list_eqb Z.eqb) (list_lift f2i (map b64_of_bits (fst c))) (snd c).
+Definition list_lift_check cases := bad_indices list_lift_ok cases.
+Definition opt_lift_ok (c : option Z * option (option Z)) : bool :=
+  opt_eqb (opt_eqb Z.eqb) (opt_lift f2i (option_map b64_of_bits (fst c))) (snd c).
+Definition opt_lift_check cases := bad_indices opt_lift_ok cases.
